@@ -55,7 +55,7 @@ func (f *failingReader) Read(p []byte) (int, error) {
 // them: the token stream equals that of LexString on the same text, and a read error is returned, not swallowed.
 func TestVerif_C04C15_Readers(t *testing.T) {
 	res := &verifResult{Check: "reader entry point", Property: "C04 C15", Exhaustive: true,
-		Bound: "3 stateful definitions x all inputs of length <= 4 (thorough: 5) over {a, space, (, ), newline, \\xc3\\xa9} x 7 readers (strings.Reader, bytes.Buffer, one byte at a time, 2-byte chunks, data returned together with io.EOF, 3-byte chunks ending with data+EOF, half reads), plus a reader failing after the text",
+		Bound: "3 stateful definitions x all inputs of length <= 4 (thorough: 5) over {a, space, (, ), newline, \\xc3\\xa9} x 7 readers (strings.Reader, bytes.Buffer, one byte at a time, 2-byte chunks, data returned together with io.EOF, 3-byte chunks ending with data+EOF, half reads), plus a reader failing after the text, and seekable readers from which a header was read before",
 		Rule: "distinct (definition, input, reader) triples; non-trivial = non-empty input and a reader other than strings.Reader"}
 	defs := map[string]Rules{
 		"simple": {"Root": {{"Ident", `[a-zé]+`, nil}, {"ws", `\s+`, nil}}},
@@ -136,6 +136,20 @@ func TestVerif_C04C15_Readers(t *testing.T) {
 						res.violate("definition %s, input %q: Lex(%s) gives %s; LexString gives %s", name, in, r.name, got, want)
 					}
 				}()
+			}
+			// a reader the caller has already read a header from: what is lexed is what is left
+			for _, hdr := range []string{"#!x\n", "é"} {
+				for ri, mk := range []func(string) io.Reader{
+					func(s string) io.Reader { r := strings.NewReader(s); _, _ = io.CopyN(io.Discard, r, int64(len(hdr))); return r },
+					func(s string) io.Reader { r := bytes.NewReader([]byte(s)); _, _ = io.CopyN(io.Discard, r, int64(len(hdr))); return r },
+				} {
+					res.Evaluations++
+					res.Distinct++
+					b, berr := def.Lex("file", mk(hdr+in))
+					if got := stream(b, berr, in); got != want {
+						res.violate("definition %s, input %q after a %d-byte header already read from the reader (kind %d): Lex gives %s; the remaining text lexes to %s", name, in, len(hdr), ri, got, want)
+					}
+				}
 			}
 			res.Evaluations++
 			if _, err := def.Lex("file", &failingReader{data: []byte(in), err: boom}); !errors.Is(err, boom) {
